@@ -145,3 +145,188 @@ theorem rwItems_total : ∀ (its : List Item) (p q : Nat), its.all Item.ok = tru
         exact ⟨Item.ch y :: o, by simp [ho]⟩
 
 end GV.Proofs.Tokens
+
+namespace GV.Proofs.Tokens
+open GV.JsTokens
+
+theorem table_slash : ∀ e ∈ punctTable, e.getLast? = some 47 → e = [47] := by decide
+
+theorem punct_slash (acc : List Nat) (h : isPunct (acc ++ [47]) = true) : acc = [] := by
+  have h1 : (acc ++ [47]) ∈ punctTable := by simpa [isPunct] using h
+  have := table_slash _ h1 (by simp)
+  simpa using this
+
+/-- after a `/` the automaton is in a state that would swallow a `*` -/
+theorem step_slash (st : St) : absorbs (step st 47).2 42 = true := by
+  unfold step
+  by_cases ha : absorbs st 47 = true
+  · simp only [ha, if_true]
+    cases st with
+    | start => simp [absorbs] at ha
+    | word acc => simp [absorbs, isIdentChar] at ha
+    | num acc => simp [absorbs, isIdentChar] at ha
+    | punct acc =>
+      have hacc : acc = [] := by
+        simp only [absorbs, Bool.or_eq_true, Bool.and_eq_true] at ha
+        rcases ha with (h | h) | h
+        · exact punct_slash acc h
+        · simp [isDigit] at h
+        · simp at h
+      subst hacc
+      decide
+  · simp only [ha, Bool.false_eq_true, if_false]
+    decide
+
+theorem flush_start_step (y : Nat) : step .start y = ((begin y).1, (begin y).2) := by
+  simp [step, absorbs, flush]
+
+/-- The simulation: `S` — output and input automata in the same state; `P` — the output automaton still holds the
+    token `st` while the input automaton was reset by a separator that has been dropped. -/
+theorem sim : ∀ (its : List Item),
+    (∀ (prev : Nat) (st : St) (f : Bool) (o : List Item), safeGo false prev st its = true → nssGo f its = true →
+        rwItems prev its = some o → (f = true → absorbs st 42 = true) →
+        tokGo st o = tokGo st its ∧ nssGo f o = true) ∧
+    (∀ (prev : Nat) (st : St) (f' : Bool) (o : List Item), safeGo true prev st its = true → nssGo false its = true →
+        rwItems prev its = some o → (f' = true → absorbs st 42 = true) →
+        tokGo st o = flush st ++ tokGo .start its ∧ nssGo f' o = true) := by
+  intro its
+  induction its with
+  | nil =>
+    constructor
+    · intro prev st f o _ _ h _; simp [rwItems] at h; subst h; exact ⟨rfl, rfl⟩
+    · intro prev st f' o _ _ h _; simp [rwItems] at h; subst h; simp [tokGo, flush, nssGo]
+  | cons it r ih =>
+    obtain ⟨ihS, ihP⟩ := ih
+    cases it with
+    | ws c =>
+      constructor
+      · intro prev st f o hs hn h hf
+        rw [rwItems] at h; rw [safeGo] at hs
+        have hn' : nssGo false r = true := by simpa [nssGo] using hn
+        cases hd : dropsWs prev (nextByte r) with
+        | none => simp [hd] at h
+        | some b =>
+          cases b
+          · simp only [hd] at h hs
+            cases hr : rwItems c r with
+            | none => simp [hr] at h
+            | some o' =>
+              simp [hr] at h; subst h
+              obtain ⟨h1, h2⟩ := ihS c .start false o' hs hn' hr (by simp)
+              simp [tokGo, h1, nssGo, h2]
+          · simp only [hd] at h hs
+            obtain ⟨h1, h2⟩ := ihP prev st f o hs hn' h hf
+            simp [tokGo, h1, h2]
+      · intro prev st f' o hs hn h hf
+        rw [rwItems] at h; rw [safeGo] at hs
+        have hn' : nssGo false r = true := by simpa [nssGo] using hn
+        cases hd : dropsWs prev (nextByte r) with
+        | none => simp [hd] at h
+        | some b =>
+          cases b
+          · simp only [hd] at h hs
+            cases hr : rwItems c r with
+            | none => simp [hr] at h
+            | some o' =>
+              simp [hr] at h; subst h
+              obtain ⟨h1, h2⟩ := ihS c .start false o' hs hn' hr (by simp)
+              simp [tokGo, h1, nssGo, h2, flush]
+          · simp only [hd] at h hs
+            obtain ⟨h1, h2⟩ := ihP prev st f' o hs hn' h hf
+            simp [tokGo, h1, h2, flush]
+    | comment b =>
+      constructor
+      · intro prev st f o hs hn h hf
+        rw [rwItems] at h; rw [safeGo] at hs
+        have hn' : nssGo false r = true := by simpa [nssGo] using hn
+        obtain ⟨h1, h2⟩ := ihP prev st f o hs hn' h hf
+        simp [tokGo, h1, h2]
+      · intro prev st f' o hs hn h hf
+        rw [rwItems] at h; rw [safeGo] at hs
+        have hn' : nssGo false r = true := by simpa [nssGo] using hn
+        obtain ⟨h1, h2⟩ := ihP prev st f' o hs hn' h hf
+        simp [tokGo, h1, h2, flush]
+    | hint bs =>
+      constructor
+      · intro prev st f o hs hn h hf
+        rw [rwItems] at h; rw [safeGo] at hs
+        have hn' : nssGo false r = true := by simpa [nssGo] using hn
+        cases hr : rwItems prev r with
+        | none => simp [hr] at h
+        | some o' =>
+          simp [hr] at h; subst h
+          obtain ⟨h1, h2⟩ := ihS prev st false o' hs hn' hr (by simp)
+          simp [tokGo, h1, nssGo, h2]
+      · intro prev st f' o hs hn h hf
+        rw [rwItems] at h; rw [safeGo] at hs
+        have hn' : nssGo false r = true := by simpa [nssGo] using hn
+        cases hr : rwItems prev r with
+        | none => simp [hr] at h
+        | some o' =>
+          simp [hr] at h; subst h
+          obtain ⟨h1, h2⟩ := ihP prev st false o' hs hn' hr (by simp)
+          simp [tokGo, h1, nssGo, h2]
+    | str b =>
+      constructor
+      · intro prev st f o hs hn h hf
+        rw [rwItems] at h; rw [safeGo] at hs
+        have hn' : nssGo false r = true := by simpa [nssGo] using hn
+        cases hr : rwItems 34 r with
+        | none => simp [hr] at h
+        | some o' =>
+          simp [hr] at h; subst h
+          obtain ⟨h1, h2⟩ := ihS 34 .start false o' hs hn' hr (by simp)
+          simp [tokGo, h1, nssGo, h2]
+      · intro prev st f' o hs hn h hf
+        rw [rwItems] at h; rw [safeGo] at hs
+        have hn' : nssGo false r = true := by simpa [nssGo] using hn
+        cases hr : rwItems 34 r with
+        | none => simp [hr] at h
+        | some o' =>
+          simp [hr] at h; subst h
+          obtain ⟨h1, h2⟩ := ihS 34 .start false o' hs hn' hr (by simp)
+          simp [tokGo, h1, nssGo, h2, flush]
+    | ch y =>
+      constructor
+      · intro prev st f o hs hn h hf
+        rw [rwItems] at h; rw [safeGo] at hs
+        simp only [nssGo, Bool.and_eq_true] at hn
+        simp only [Bool.false_and, Bool.not_false, Bool.true_and] at hs
+        split at h
+        · simp at h
+        · cases hr : rwItems y r with
+          | none => simp [hr] at h
+          | some o' =>
+            simp [hr] at h; subst h
+            have hf' : (y == 47) = true → absorbs (step st y).2 42 = true := by
+              intro h47; have : y = 47 := by simpa using h47
+              subst this; exact step_slash st
+            obtain ⟨h1, h2⟩ := ihS y (step st y).2 (y == 47) o' hs hn.2 hr hf'
+            simp [tokGo, h1, nssGo, h2, hn.1]
+      · intro prev st f' o hs hn h hf
+        rw [rwItems] at h; rw [safeGo] at hs
+        simp only [nssGo, Bool.and_eq_true] at hn
+        simp only [Bool.true_and, Bool.and_eq_true, Bool.not_eq_true'] at hs
+        obtain ⟨hna, hs⟩ := hs
+        split at h
+        · simp at h
+        · cases hr : rwItems y r with
+          | none => simp [hr] at h
+          | some o' =>
+            simp [hr] at h; subst h
+            have hstep : step st y = (flush st ++ (begin y).1, (begin y).2) := by simp [step, hna]
+            have hf2 : (y == 47) = true → absorbs (begin y).2 42 = true := by
+              intro h47; have : y = 47 := by simpa using h47
+              subst this; decide
+            rw [hstep] at hs
+            obtain ⟨h1, h2⟩ := ihS y (begin y).2 (y == 47) o' hs hn.2 hr hf2
+            have hy42 : (f' && y == 42) = false := by
+              cases f' with
+              | false => rfl
+              | true =>
+                have := hf rfl
+                by_cases h42 : y = 42
+                · subst h42; rw [this] at hna; cases hna
+                · simp [h42]
+            simp [tokGo, hstep, flush_start_step, h1, nssGo, h2, hy42]
+end GV.Proofs.Tokens
